@@ -61,6 +61,21 @@ CLAIMS = {
         technique="Lean 4 proof (byte-level layout lemmas, LE round trip, refinement to the minishard "
                   "model) + specification-reader oracle on real files",
         ref="DESIGN.md §6 C04"),
+    "C02": dict(
+        text="Lean 4 theorem file_decodes: for uint32/uint64, any channel count, any chunk shape and any "
+             "(non-cubic, non-dividing) block size, whenever the encoder model emits a file the decoder "
+             "written only from the format text returns the original label at EVERY voxel and the file is "
+             "4-byte aligned; composed from kernel-checked layers (sorted-distinct LUT + index, bit packing "
+             "for all six non-zero widths, append-only arena with LUT sharing, block/voxel index arithmetic, "
+             "channel offsets, little-endian words). Tie: the real encoder's bytes equal the model's bytes "
+             "on every sampled chunk (all bit widths, padding, LUT sharing across blocks), the real decoder "
+             "equals the model of the package decoder; oracle: Lean's specification decoder on the REAL bytes.",
+        note="Trusted: Lean kernel; standard axioms (Mathlib's ring used for index identities); hand-written "
+             "model (tie = sampling); np.unique/np.pad/argmax semantics as modelled; bit-width table "
+             "regenerated from the source.",
+        technique="Lean 4 proof (layered refinement encoder -> format decoder) + byte-level differential "
+                  "correspondence",
+        ref="DESIGN.md §6 C02"),
 }
 
 ALL = ["C%02d" % i for i in range(1, 21)]
